@@ -219,7 +219,8 @@ class Ctx:
             return False
         # the same condition (structurally: z3 terms are hash-consed) decided earlier on this path keeps its value - no
         # solver call, no trail entry (re-executions rebuild this table in the same order)
-        hit = self.known.get(c.get_id())
+        # (not for model-driven choices: their candidate is stored in the trail entry they create, so each of them must own one)
+        hit = self.known.get(c.get_id()) if payload is None else None
         if hit is not None and hit[0].eq(c):
             return hit[1]
         val = self._branch(c, payload)
